@@ -4,6 +4,8 @@ CONSTANTS
  Cloners = {11,12}
  NCalls = 1000000
  InitKinds = {"static","built"}
-INVARIANTS TypeOK RetOK MemoOK CloneOK
+ Comparers = {21,22}
+ EqReadsMemoValueFirst = FALSE
+INVARIANTS TypeOK RetOK MemoOK CloneOK EqCmpAgree EqIgnoresMemo
 POSTCONDITION TraceAccepted
 CHECK_DEADLOCK FALSE
